@@ -188,7 +188,11 @@ class PtnFilterChord(PtnFilter):
             A boolean on filter result
         """
 
-        return data not in self.ar if self.invert_filter else data in self.ar
+        # `data in self.ar` is an element-wise any(): match whole rows instead
+        contained = self.ar.shape[1] == len(data) and bool(
+            np.all(self.ar == np.asarray(data), axis=1).any()
+        )
+        return not contained if self.invert_filter else contained
 
     class Option:
         """The methods available to use in fromChord
